@@ -109,6 +109,14 @@ IssueOps(list) ==
 (***************************************************************************)
 (* Actions                                                                 *)
 (***************************************************************************)
+\* the destinations are handed over empty, their cursors anywhere (a cleared buffer that is being reused):
+\* every call that starts a file seeks to offset 0 first
+WInitAt(withShx, p1, p2) ==
+    /\ shp = [Dev0 EXCEPT !.pos = p1] /\ shx = [Dev0 EXCEPT !.pos = p2] /\ hasShx = withShx
+    /\ hType = 0 /\ hLen = 50 /\ hBox = Box0 /\ recNum = 1 /\ dirty = TRUE
+    /\ written = << >> /\ status = "live" /\ shpOps = << >> /\ shxOps = << >>
+    /\ last = [call |-> "new", res |-> "ok", io |-> FALSE, req |-> 0, act |-> 0]
+
 WInit(withShx) ==
     /\ shp = Dev0 /\ shx = Dev0 /\ hasShx = withShx
     /\ hType = 0 /\ hLen = 50 /\ hBox = Box0 /\ recNum = 1 /\ dirty = TRUE
